@@ -36,6 +36,9 @@ META = {
     "trusted_base": ["z3 5.1 NRA", "vlib/dual.py chain rules", "vlib/ufnorm.py ground facts"],
 }
 
+# initial / feed concentrations of the PRODUCT may be exactly zero (the common case; the statement adds "including non-zero initial product")
+MAY_BE_ZERO = ("prod", "p", "fp")
+
 # name -> spec.  rhs/init are python source evaluated with parameter names and y0,y1 (the components).
 CASES = {
     "dimerization_irrev": dict(
@@ -80,7 +83,7 @@ def _run(name, nval=1, at_zero=False):
     res = eval(spec["call"], {}, scope)
     comps = list(res) if isinstance(res, tuple) else [res]
     assert len(comps) == spec["n"]
-    assum = [P[p].t > 0 for p in spec["params"]] + [tsym.t >= 0]
+    assum = [(P[p].t >= 0) if p in MAY_BE_ZERO else (P[p].t > 0) for p in spec["params"]] + [tsym.t >= 0]
     for e in spec["extra"]:
         assum.append(eval(e, {}, dict(P)).t)
     return f, P, tsym, comps, assum
@@ -167,13 +170,85 @@ sys.exit(0 if ok else 1)
 '''
 
 
+REPLAY_NUM = '''
+sys.path.insert(0, "/verif")
+import math
+from vlib.dual import Dual
+from chempy.kinetics import integrated
+f = getattr(integrated, %(fn)r)
+vals = %(vals)s
+kind, nval, comp = %(kind)r, %(nval)d, %(comp)d
+
+
+class FB(object):   # float backend with the chain rules for dual numbers (value, d/dt)
+    pi, e = math.pi, math.e
+    @staticmethod
+    def _ap(x, fv, fd):
+        return Dual(fv(x.v), fd(x.v) * x.d) if isinstance(x, Dual) else fv(x)
+    def exp(self, x): return self._ap(x, math.exp, math.exp)
+    def sqrt(self, x): return self._ap(x, math.sqrt, lambda v: 0.5 / math.sqrt(v))
+    def tanh(self, x): return self._ap(x, math.tanh, lambda v: 1 - math.tanh(v) ** 2)
+    def atanh(self, x): return self._ap(x, math.atanh, lambda v: 1 / (1 - v * v))
+    arctanh = atanh
+    def log(self, x): return self._ap(x, math.log, lambda v: 1 / v)
+
+
+sc = {k: float(Fraction(v)) for k, v in vals.items() if k != "t"}
+tv = float(Fraction(vals["t"])) if kind == "ode" else 0.0
+sc.update(f=f, be=FB(), n=nval, t=Dual(tv, 1.0))
+try:
+    res = eval(%(call)r, {}, sc)
+except (ZeroDivisionError, ValueError, OverflowError) as e:
+    print("not evaluable at this point: %%r" %% (e,)); sys.exit(0)
+comps = list(res) if isinstance(res, tuple) else [res]
+for i, c in enumerate(comps): sc["y%%d" %% i] = c.v if isinstance(c, Dual) else c
+c = comps[comp]
+if kind == "ode":
+    lhs = c.d if isinstance(c, Dual) else 0.0; rhs = eval(%(rhs)r, {}, sc)
+else:
+    lhs = c.v if isinstance(c, Dual) else c; rhs = eval(%(init)r, {}, sc)
+print("%%s %%s component %%d at %%s: lhs=%%r rhs=%%r" %% (%(name)r, kind, comp, vals, lhs, rhs))
+ok = abs(lhs - rhs) <= 1e-7 * max(1.0, abs(lhs), abs(rhs))
+sys.exit(0 if ok else 1)
+'''
+
+
+def _domain(name):
+    spec = CASES[name]
+    P = {p: Real(p) for p in spec["params"]}
+    assum = [(P[p].t >= 0) if p in MAY_BE_ZERO else (P[p].t > 0) for p in spec["params"]] + [z3.Real("t") >= 0]
+    for e in spec["extra"]:
+        assum.append(eval(e, {}, dict(P)).t)
+    return assum
+
+
 def ob(name, kind, nval=1, seed=0):
     t0 = time.time()
     from chempy.kinetics import integrated
+    from vlib.zsym import Ctx, SymTypeError
 
     spec = CASES[name]
-    f, P, tsym, pairs, assum = _sides(name, kind, nval)
-    res = dict(engine="Z+AD", functions=[env.describe(f)], obligations=len(pairs), discharged=0, violations=[],
+    forked = False
+    try:
+        f, P, tsym, pairs, assum = _sides(name, kind, nval)
+        variants = [(pairs, assum)]
+    except SymTypeError:
+        # the implementation branches on a value (e.g. an early return for a special case): explore every branch with solver-decided forks
+        forked = True
+        variants = []
+        exc_paths = []
+        ctx = Ctx(_domain(name), max_paths=64)
+        for path in ctx.iter_paths(lambda: _sides(name, kind, nval)):
+            if path.kind == "exc":
+                exc_paths.append(path)
+                continue
+            f, P, tsym, pairs_, assum_ = path.value
+            variants.append((pairs_, list(assum_) + list(path.pc)))
+        if not variants:
+            return dict(engine="Z+AD", functions=[], obligations=1, discharged=0, violations=[], inconclusive=["no evaluable branch: %r" % (exc_paths[0].value if exc_paths else None,)],
+                        status="inconclusive", bounds="", sample={"function": name})
+        pairs, assum = variants[0]
+    res = dict(engine="Z+AD", functions=[env.describe(f)], obligations=sum(len(v[0]) for v in variants), discharged=0, violations=[],
                inconclusive=[], queries=0, solver_s=0.0,
                bounds="all reals: params>0, t>=0%s" % ("; " + "; ".join(spec["extra"]) if spec["extra"] else ""),
                sample={"function": name, "kind": kind, "call": spec["call"], "oracle": spec["rhs" if kind == "ode" else "init"]})
@@ -197,17 +272,22 @@ def ob(name, kind, nval=1, seed=0):
         scope["t"] = pt["t"]
     real = eval(spec["call"], {}, scope)
     real = list(real) if isinstance(real, tuple) else [real]
-    if kind == "init":
+    if kind == "init" and not forked:
         for i, (l, r) in enumerate(pairs):
             if not close(zeval(l, pt), real[i], rel=1e-9):
                 res.update(status="error", detail="translator validation failed: term %s vs real %s" % (zeval(l, pt), real[i]))
                 return res
     # twin
-    _, _, _, tpairs, tassum = _sides(name, kind, nval, twin=True)
-    tn = UFNorm(tassum, timeout_ms=5000)
-    tv, _ = tn.prove(z3.And(*[l == r for l, r in tpairs]))
-    res["twin"] = "violated" if tv == "sat" else ("passed" if tv == "unsat" else "unknown")
-    for i, (l, r) in enumerate(pairs):
+    if not forked:
+        _, _, _, tpairs, tassum = _sides(name, kind, nval, twin=True)
+        tn = UFNorm(tassum, timeout_ms=5000)
+        tv, _ = tn.prove(z3.And(*[l == r for l, r in tpairs]))
+        res["twin"] = "violated" if tv == "sat" else ("passed" if tv == "unsat" else "unknown")
+    else:
+        res["twin"] = "n/a"
+        res["bounds"] += " (forking fallback: %d branches)" % len(variants)
+    work = [(vi, i, l, r, a_) for vi, (prs, a_) in enumerate(variants) for i, (l, r) in enumerate(prs)]
+    for vi, i, l, r, assum in work:
         norm = UFNorm(assum, timeout_ms=10000)
         v, m = norm.prove(l == r, timeout_ms=60000)
         res["queries"] += 1 + norm.stats["arg_queries"]
@@ -221,6 +301,16 @@ def ob(name, kind, nval=1, seed=0):
             continue
         pt, _, lv, rv = w
         vals = {k: str(val) for k, val in pt.items()}
+        if forked:
+            # a branch taken only for particular VALUES cannot be replayed through sympy (structural comparisons): numeric dual numbers
+            res["violations"].append(dict(
+                key="%s.%s.%d.branch" % (spec.get("fn", name), kind, i), soft=True,
+                desc="%s (branch %d): %s of component %d is %s but the documented %s gives %s at %s" % (
+                    name, vi, "d/dt" if kind == "ode" else "value at t=0", i, mpstr(lv),
+                    "rate equation" if kind == "ode" else "initial concentration", mpstr(rv), vals),
+                replay_src=REPLAY_NUM % dict(name=name, kind=kind, nval=nval, comp=i, vals=repr(vals), fn=spec.get("fn", name), call=spec["call"],
+                                             rhs=spec["rhs"][i], init=spec["init"][i])))
+            continue
         res["violations"].append(dict(
             key="%s.%s.%d" % (spec.get("fn", name), kind, i),
             desc="%s: %s of component %d is %s but the documented %s gives %s at %s" % (
@@ -365,7 +455,7 @@ def ob_array(name, nval=1, seed=0):
                                           replay_src=_arr_replay(name, nval, spec, call)))
         res["status"] = "violation" if res["violations"] else "inconclusive"
         return res
-    assum = [P[p].t > 0 for p in spec["params"]] + [ta.t >= 0, tb.t >= 0]
+    assum = [(P[p].t >= 0) if p in MAY_BE_ZERO else (P[p].t > 0) for p in spec["params"]] + [ta.t >= 0, tb.t >= 0]
     goals = []
     for i in range(len(r1)):
         for j in range(2):
